@@ -199,7 +199,7 @@ func (sp SinePacer) Pace(elapsedTime time.Duration, elapsedHits uint64) (time.Du
 
 	// If we can't converge to an error of <1e-3 within 5 iterations, bail.
 	// This rarely even loops for any large Period if hitsToWait is small.
-	for i := 0; i < 5; i++ {
+	for i := 0; i < 5 && nextHitIn >= 0; i++ {
 		hitsAtGuess := sp.hits(elapsedTime + nextHitIn)
 		err := float64(elapsedHits+1) - hitsAtGuess
 		if math.Abs(err) < 1e-3 {
@@ -207,7 +207,28 @@ func (sp SinePacer) Pace(elapsedTime time.Duration, elapsedHits uint64) (time.Du
 		}
 		nextHitIn = time.Duration(float64(nextHitIn) / (hitsAtGuess - float64(elapsedHits)))
 	}
-	return nextHitIn, false
+
+	// The iteration above diverges when the rate changes a lot within one hit
+	// interval (few hits per Period or Amp close to Mean). hits() never
+	// decreases because Amp < Mean, so bisect for the first instant at which
+	// it reaches the next hit. The rate is at least Mean-Amp, which bounds the wait.
+	maxWait := math.Ceil(hitsToWait / (sp.Mean.hitsPerNs() - sp.Amp.hitsPerNs()))
+	lo, hi := time.Duration(0), math.MaxInt64-elapsedTime
+	if maxWait < float64(hi) {
+		hi = time.Duration(maxWait)
+	} else if sp.hits(elapsedTime+hi) < float64(elapsedHits+1) {
+		// The next hit is due after the largest representable duration.
+		return 0, true
+	}
+	for lo < hi {
+		mid := lo + (hi-lo)/2
+		if sp.hits(elapsedTime+mid) < float64(elapsedHits+1) {
+			lo = mid + 1
+		} else {
+			hi = mid
+		}
+	}
+	return lo, false
 }
 
 // Rate returns a SinePacer's instantaneous hit rate (i.e. requests per second)
